@@ -21,20 +21,21 @@ const fnSince = "(*neutrino.blockManager).NotificationsSinceHeight"
 
 func runC19(c *Ctx) {
 	bm := func(f string) *types.Var { return c.field("neutrino", "blockManager", f) }
-	bmM := func(m string) *types.Func { return c.method("neutrino", "blockManager", m) }
 	fhs := func(m string) *types.Func { return c.method("headerfs", "FilterHeaderStore", m) }
 	bhs := func(m string) *types.Func { return c.method("headerfs", "BlockHeaderStore", m) }
 
 	c.rule("C19.O1", "writeCFHeadersMsg: blocks are announced as connected only after their filter headers were stored (WriteHeaders=nil) and the in-memory filter tip was updated; the announcements range over the fetched block headers in slice order with height startHeight+i", func() {
 		fn := c.fn(fnWriteCFH)
-		conn := find(fn, callTo(bmM("onBlockConnected")))
+		emits := c.emitSites(fn, "onBlockConnected", "NewBlockConnected")
+		conn := emitIns(emits)
+		isConn := oneOf(conn)
 		w := find(fn, callTo(fhs("WriteHeaders")))
 		c.guarded(fn, errNil("store.WriteHeaders", w, 0), 1, "onBlockConnected", conn, 1, gDominate)
-		c.mustPrecede(fn, storeToField(bm("filterHeaderTip")), "filterHeaderTip = lastHeight", callTo(bmM("onBlockConnected")), "onBlockConnected", 1)
+		c.mustPrecede(fn, storeToField(bm("filterHeaderTip")), "filterHeaderTip = lastHeight", isConn, "onBlockConnected", 1)
 		anc := bhs("FetchHeaderAncestors")
 		okv := len(conn) == 1
-		for _, cn := range conn {
-			a := argsOf(cn)
+		for _, em := range emits {
+			a := em.args
 			// header: element of the ancestors slice
 			var idx ssa.Value
 			okH := ir.DerivesFrom(a[0], func(x ssa.Value) bool {
@@ -78,10 +79,11 @@ func runC19(c *Ctx) {
 
 	c.rule("C19.O2", "rollBackToHeight: each removed block is announced as disconnected after BlockHeaders.RollbackLastBlock succeeded, carrying the header fetched for the old tip before the rollback, its height, and the header fetched for the new tip", func() {
 		fn := c.fn(fnRollBack)
-		disc := find(fn, callTo(bmM("onBlockDisconnected")))
+		demits := c.emitSites(fn, "onBlockDisconnected", "NewBlockDisconnected")
+		disc := emitIns(demits)
 		rb := find(fn, callTo(bhs("RollbackLastBlock")))
 		c.guarded(fn, errNil("BlockHeaders.RollbackLastBlock", rb, 1), 1, "onBlockDisconnected", disc, 1, gDominate)
-		c.mustFollowIter(fn, "block header rolled back", c.successEdges(errNil("BlockHeaders.RollbackLastBlock", rb, 1)), callTo(bmM("onBlockDisconnected")), "onBlockDisconnected", func() ir.Cut {
+		c.mustFollowIter(fn, "block header rolled back", c.successEdges(errNil("BlockHeaders.RollbackLastBlock", rb, 1)), oneOf(disc), "onBlockDisconnected", func() ir.Cut {
 			// the only exit without an event: failing to read the new tip header
 			cut := ir.Cut{}
 			for _, in := range find(fn, callTo(bhs("FetchHeader"))) {
@@ -116,7 +118,7 @@ func runC19(c *Ctx) {
 		}
 		okv := len(disc) == 1 && oldFetch != nil && newFetch != nil
 		if okv {
-			a := argsOf(disc[0])
+			a := demits[0].args
 			from := func(v, call ssa.Value, idx int) bool {
 				return ir.DerivesFrom(v, func(x ssa.Value) bool {
 					e, ok := x.(*ssa.Extract)
@@ -194,36 +196,46 @@ func runC19(c *Ctx) {
 		}
 	})
 
-	c.rule("C19.W1", "single emitters: onBlockConnected is called only from writeCFHeadersMsg, onBlockDisconnected only from rollBackToHeight, and nothing else sends on blockNtfnChan; both helpers can be abandoned on quit", func() {
-		c.whoMay("blockManager.onBlockConnected", callTo(bmM("onBlockConnected")), []string{fnWriteCFH}, 1)
-		c.whoMay("blockManager.onBlockDisconnected", callTo(bmM("onBlockDisconnected")), []string{fnRollBack}, 1)
-		c.whoMay("send on blockManager.blockNtfnChan", sendOn(loadsField(bm("blockNtfnChan"))), []string{"(*neutrino.blockManager).onBlockConnected", "(*neutrino.blockManager).onBlockDisconnected"}, 2)
-		for _, name := range []string{"(*neutrino.blockManager).onBlockConnected", "(*neutrino.blockManager).onBlockDisconnected"} {
-			fn := c.fn(name)
-			okv := false
-			ir.Instrs(fn, func(in ssa.Instruction) {
-				if sel, ok := in.(*ssa.Select); ok && selectHasRecv(sel, loadsField(bm("quit"))) {
+	c.rule("C19.W1", "single emitters: onBlockConnected is called only from writeCFHeadersMsg, onBlockDisconnected only from rollBackToHeight, and nothing else sends on blockNtfnChan (the two helpers, or the two functions themselves when the emission is written out in them); every such send can be abandoned on quit", func() {
+		var senders []string
+		for _, spec := range []struct{ helper, host, ctor string }{{"onBlockConnected", fnWriteCFH, "NewBlockConnected"}, {"onBlockDisconnected", fnRollBack, "NewBlockDisconnected"}} {
+			name := "(*neutrino.blockManager)." + spec.helper
+			if m := c.P.Method("neutrino", "blockManager", spec.helper); m != nil && c.P.Func(name) != nil {
+				c.whoMay("blockManager."+spec.helper, callTo(m), []string{spec.host}, 1)
+				senders = append(senders, name)
+				// event payloads are the helper's parameters
+				fn := c.fn(name)
+				ctor := c.funcObj("blockntfns", spec.ctor)
+				okv := false
+				for _, call := range find(fn, callTo(ctor)) {
 					okv = true
-				}
-			})
-			c.verdict(okv, name+" | send can be abandoned on quit", c.P.Pos(fn.Pos()), "select with quit", "event emission can block forever at shutdown")
-		}
-		// event payloads are the helper's parameters
-		for _, spec := range []struct {
-			fn, ctor string
-		}{{"(*neutrino.blockManager).onBlockConnected", "NewBlockConnected"}, {"(*neutrino.blockManager).onBlockDisconnected", "NewBlockDisconnected"}} {
-			fn := c.fn(spec.fn)
-			ctor := c.funcObj("blockntfns", spec.ctor)
-			okv := false
-			for _, call := range find(fn, callTo(ctor)) {
-				okv = true
-				for i, a := range ir.CallOf(call).Args {
-					if !isParam(fn, i+1)(a) {
-						okv = false
+					for i, a := range ir.CallOf(call).Args {
+						if !isParam(fn, i+1)(a) {
+							okv = false
+						}
 					}
 				}
+				c.verdict(okv, name+" | event built from the helper's arguments in order", c.P.Pos(fn.Pos()), spec.ctor+"(params...)", "the emitted event is not built from the helper's own arguments in order")
+			} else {
+				senders = append(senders, spec.host)
 			}
-			c.verdict(okv, spec.fn+" | event built from the helper's arguments in order", c.P.Pos(fn.Pos()), spec.ctor+"(params...)", "the emitted event is not built from the helper's own arguments in order")
+		}
+		isSendOnNtfn := sendOn(loadsField(bm("blockNtfnChan")))
+		c.whoMay("send on blockManager.blockNtfnChan", isSendOnNtfn, senders, 2)
+		for _, name := range senders {
+			fn := c.fn(name)
+			okv, n := true, 0
+			ir.Instrs(fn, func(in ssa.Instruction) {
+				if !isSendOnNtfn(in) {
+					return
+				}
+				n++
+				sel, isSel := in.(*ssa.Select)
+				if !isSel || !selectHasRecv(sel, loadsField(bm("quit"))) {
+					okv = false
+				}
+			})
+			c.verdict(okv && n >= 1, name+" | send can be abandoned on quit", c.P.Pos(fn.Pos()), "select with quit", "event emission can block forever at shutdown")
 		}
 	})
 
@@ -232,7 +244,7 @@ func runC19(c *Ctx) {
 	c.rule("C19.O5", "commit and announcement cannot come apart: in writeCFHeadersMsg, once the filter headers were stored (WriteHeaders=nil) every path reaches the notification loop before the function returns: nothing that can fail (and return early) lies between the commit and the Connected events", func() {
 		fn := c.fn(fnWriteCFH)
 		w := find(fn, callTo(fhs("WriteHeaders")))
-		conn := find(fn, callTo(bmM("onBlockConnected")))
+		conn := emitIns(c.emitSites(fn, "onBlockConnected", "NewBlockConnected"))
 		if len(conn) != 1 || ir.LoopHeaderOf(conn[0].Block()) == nil {
 			c.fail(c.nm(fn)+" | notification loop", c.P.Pos(fn.Pos()), "expected one onBlockConnected call inside a loop")
 			return
@@ -244,8 +256,8 @@ func runC19(c *Ctx) {
 
 	c.rule("C19.X1", "one connected event per committed filter header: the notification loop of writeCFHeadersMsg visits every matching block header (indices 0..len-1, no early exit) and calls onBlockConnected on every iteration with the height startHeight+i", func() {
 		fn := c.fn("(*neutrino.blockManager).writeCFHeadersMsg")
-		obc := c.method("neutrino", "blockManager", "onBlockConnected")
-		calls := find(fn, callTo(obc))
+		xem := c.emitSites(fn, "onBlockConnected", "NewBlockConnected")
+		calls := emitIns(xem)
 		if len(calls) != 1 || ir.LoopHeaderOf(calls[0].Block()) == nil {
 			c.fail(c.nm(fn)+" | notification loop", c.P.Pos(fn.Pos()), fmt.Sprintf("%d onBlockConnected call(s) in a loop, 1 tabled", len(calls)))
 			return
@@ -270,7 +282,7 @@ func runC19(c *Ctx) {
 		// height = startHeight + uint32(i)
 		lf := loopFormOf(h)
 		okH := false
-		if b, ok := argsOf(call)[1].(*ssa.BinOp); ok && b.Op == token.ADD && lf.phi != nil {
+		if b, ok := xem[0].args[1].(*ssa.BinOp); ok && b.Op == token.ADD && lf.phi != nil {
 			isStart := func(v ssa.Value) bool {
 				e, ok := v.(*ssa.Extract)
 				return ok && e.Index == 1 && valIsCallTo(anc)(e.Tuple)
@@ -370,4 +382,72 @@ func (c *Ctx) backlogBound() {
 			okLoop = init && bound && same
 		}
 		c.verdict(okLoop, c.nm(fn)+" | backlog = connected(header@i, i) for i = height+1 .. filterHeaderTip", c.P.Pos(fn.Pos()), "loop bounds and payload as tabled", "the backlog loop does not cover exactly height+1 .. filterHeaderTip with matching header and height")
+}
+
+// ---- event emission points ----
+//
+// A block event leaves the block manager either through the helper
+// (onBlockConnected / onBlockDisconnected) or, when that helper has been folded
+// into its caller, through the constructor call whose result is sent on
+// blockNtfnChan. Either way the rule sees one instruction to order and guard,
+// and the event's operands.
+type emitSite struct {
+	in   ssa.Instruction
+	args []ssa.Value
+}
+
+func (c *Ctx) emitSites(fn *ssa.Function, helper, ctor string) []emitSite {
+	var out []emitSite
+	if m := c.P.Method("neutrino", "blockManager", helper); m != nil {
+		for _, in := range find(fn, callTo(m)) {
+			out = append(out, emitSite{in, argsOf(in)})
+		}
+	}
+	ctorF := c.funcObj("blockntfns", ctor)
+	ch := c.field("neutrino", "blockManager", "blockNtfnChan")
+	for _, in := range find(fn, callTo(ctorF)) {
+		v, ok := in.(ssa.Value)
+		if !ok {
+			continue
+		}
+		sent := false
+		ir.Instrs(fn, func(x ssa.Instruction) {
+			switch y := x.(type) {
+			case *ssa.Send:
+				if loadsField(ch)(y.Chan) && ir.DerivesFrom(y.X, func(z ssa.Value) bool { return z == v }) {
+					sent = true
+				}
+			case *ssa.Select:
+				for _, st := range y.States {
+					if st.Dir == types.SendOnly && loadsField(ch)(st.Chan) && ir.DerivesFrom(st.Send, func(z ssa.Value) bool { return z == v }) {
+						sent = true
+					}
+				}
+			}
+		})
+		if sent {
+			out = append(out, emitSite{in, ir.CallOf(in).Args})
+		}
+	}
+	return out
+}
+
+func emitIns(es []emitSite) []ssa.Instruction {
+	var out []ssa.Instruction
+	for _, e := range es {
+		out = append(out, e.in)
+	}
+	return out
+}
+
+// oneOf selects exactly the given instructions.
+func oneOf(ins []ssa.Instruction) Sel {
+	return func(in ssa.Instruction) bool {
+		for _, x := range ins {
+			if x == in {
+				return true
+			}
+		}
+		return false
+	}
 }
